@@ -54,7 +54,8 @@ MustFail == e.a[1] = 1        \* set by the generator for corruptions inside the
                               \* (3 = burst across a checksum-field boundary: claimed by C07, not guaranteed - open finding)
 RTr == e.a[2]
 Cfg == [tr |-> e.a[2], mem16 |-> e.a[3] >= 1, cap |-> e.a[4], void |-> e.a[3] = 2]       \* memory 0: 8 bit, 1: 16 bit, 2: none attached (16-bit default)
-AllocFail == e.a[5] % 2 = 1        \* (bit 1 of the field selects the slab-style allocator in the harness)
+AllocFail == e.a[5] % 2 = 1        \* (bit 1 of the field selects the slab-style allocator in the harness, bits 2-3 the source flavour)
+SinkFail == (e.a[5] \div 16) % 2 = 1  \* bit 4: the sink the replies go to refuses a call
 Verdict == e.a[6]
 VAddr == <<e.a[7], e.a[8]>>
 ND == e.a[9]
@@ -70,6 +71,12 @@ RxnOK == LET A == RxAllowed
              balanced == rest[1] = 0 /\ rest[4] = rest[3] /\ rest[3] \in {0, 1} /\ rest[5] = 0 /\ rest[6] = 0 /\ rest[7] = 0
          IN /\ e.o[1] = Len(WireIn)
             /\ IF A = {<<-9>>} THEN balanced ELSE rest \in A
+(* when the reply cannot be sent what the caller sees is not specified; what is: every block obtained is released exactly once,
+   nothing is released twice, nothing stays behind, and a frame that failed reception still causes no memory access *)
+RxSinkFailOK == LET u == Unframe(RTr, WireIn)
+                    executable == u.st = "ok" /\ Len(u.frame) <= Cfg.cap /\ ~AllocFail /\ C_OK \in Classes(u.frame) /\ IsRequest(u.frame)
+                IN /\ e.o[3] \in {0, 1} /\ e.o[4] = e.o[3] /\ e.o[5] = 0 /\ e.o[6] = 0
+                   /\ e.o[7] \in {0, 1} /\ (e.o[7] = 1 => executable)
 RxOK == LET A == RxAllowed
             u == Unframe(RTr, WireIn)
            \* where the reply is not specified (marker -9) the run must still be resource-exact and touch no memory backend
@@ -84,7 +91,7 @@ TNext == /\ l <= Len(TraceLog) /\ l' = l + 1
               [] e.op = "sizeof" -> TRUE
               [] e.op = "emit" -> EmitOK /\ e.asan = 0
               [] e.op = "emitf" -> EmitFOK /\ e.asan = 0
-              [] e.op = "rx" -> RxOK /\ e.asan = 0
+              [] e.op = "rx" -> (IF SinkFail THEN RxSinkFailOK ELSE RxOK) /\ e.asan = 0
               [] e.op = "rxn" -> RxnOK /\ e.asan = 0
               [] e.op = "rxopen" -> TRUE
               [] e.op = "isect" -> e.o = IsectObs(e.a[1], e.a[2], e.a[3], e.a[4])
